@@ -428,10 +428,32 @@ def shift_of(t, var_desc):
     return {"has_lit": "CondHasLit", "is_lit": "CondIsLit"}[kind], (k if new[1] == "add" else -k), old
 
 
+def when_only(t):
+    """('call','when',[cond, value])  ->  (cond, value)  or None"""
+    if t[0] == "call" and t[1] == "when" and len(t[2]) == 2:
+        return t[2][0], t[2][1]
+    return None
+
+
+def when_otherwise(t):
+    """when(cond, a).otherwise(b)  ->  (cond, a, b)  or None"""
+    if t[0] == "method" and t[2] == "otherwise" and len(t[3]) == 1 and when_only(t[1]):
+        c, a = when_only(t[1])
+        return c, a, t[3][0]
+    return None
+
+
+def conj(t):
+    """a & b & ...  ->  [a, b, ...]"""
+    if t[0] == "bin" and t[1] == "and":
+        return conj(t[2]) + conj(t[3])
+    return [t]
+
+
 def generate(repo: str):
     I = Interp(repo)
     L = ["(* GENERATED from /repo on every run by translate/c17_facts.py -- do not edit *)",
-         "From Coq Require Import ZArith List.", "From SF Require Import C17.Emul C17.EmulCheck.",
+         "From Coq Require Import ZArith List String.", "From SF Require Import C17.Emul C17.Emul2 C17.EmulCheck.",
          "Import ListNotations.", "Open Scope Z_scope."]
     facts = []
 
@@ -441,12 +463,35 @@ def generate(repo: str):
 
     # ---- slice -------------------------------------------------------------------------------------------
     t = I.function("slice")
+    rebase = "NoRebase"
+    first_term = None
+    wo = when_otherwise(t)
+    if wo:
+        # when(first < below, LIST_SLICE(x, 1, 0)).otherwise(LIST_SLICE(x, lo(first, length), hi(first, length)))
+        cnd, empty, t = wo
+        need(cnd[0] == "cmp" and cnd[1] == "lt" and int_const(cnd[3]) is not None, f"slice: outer condition is not `first < k`: {cnd}")
+        first_term, below = cnd[2], int_const(cnd[3])
+        need(empty[0] == "anon" and empty[1] == "LIST_SLICE" and len(empty[2]) == 3 and is_param(empty[2][0], "x")
+             and int_const(empty[2][1]) is not None and int_const(empty[2][2]) is not None and int_const(empty[2][1]) >= 1
+             and int_const(empty[2][2]) < int_const(empty[2][1]), f"slice: the out-of-range branch is not an empty LIST_SLICE(x, i, j<i): {empty}")
+        fw = when_otherwise(first_term)
+        need(fw is not None, f"slice: first index is not when(start < 0, ..).otherwise(start): {first_term}")
+        c2, neg, pos_ = fw
+        need(c2[0] == "cmp" and c2[1] == "lt" and is_param(c2[2], "start") and int_const(c2[3]) == 0 and is_param(pos_, "start"),
+             f"slice: first index does not split on start < 0: {first_term}")
+        size = ("exp", "ArraySize", {"this": ("param", "x")})
+        d = affine(neg, {"size": size, "start": None})
+        need(set(d) <= {"size", "start", 1}, "slice: negative-start index uses other variables")
+        rebase = f"(Rebase ({d.get('size', 0)}) ({d.get('start', 0)}) ({d.get(1, 0)}) ({below}))"
     need(t[0] == "anon" and t[1] == "LIST_SLICE" and len(t[2]) == 3 and is_param(t[2][0], "x"),
          f"slice: not LIST_SLICE(x, lo, hi): {t}")
-    lo = affine(t[2][1], {"start": None, "length": None})
-    hi = affine(t[2][2], {"start": None, "length": None})
+    sv = {"start": first_term, "length": None} if first_term is not None else {"start": None, "length": None}
+    lo = affine(t[2][1], sv)
+    hi = affine(t[2][2], sv)
     fact("slice", "slice_cfg", f"mkSlice {aff3(lo, 'start', 'length')} {aff3(hi, 'start', 'length')}",
-         ["slice", "slice_as_list_slice"], "LIST_SLICE(x, lo, hi) as affine forms (start, length, const)")
+         ["slice", "slice_as_list_slice"], "LIST_SLICE(x, lo, hi) as affine forms (first index, length, const)")
+    fact("slice_rebase", "slice_rebase", rebase, ["slice_as_list_slice"],
+         "first index = CASE WHEN start < 0 THEN a*size + b*start + k ELSE start END; [] when it is < below")
 
     # ---- element_at / try_element_at / getItem ------------------------------------------------------------------
     def bracket(t, who, colname, valname):
@@ -504,6 +549,18 @@ def generate(repo: str):
 
     # ---- factorial --------------------------------------------------------------------------------------------
     t = I.function("factorial")
+    guard = "None"
+    wo = when_only(t)
+    if wo:
+        # when((v >= lo) & (v <= hi), FACTORIAL(v))
+        cs, inner = conj(wo[0]), wo[1]
+        need(inner[0] == "anon" and len(inner[2]) == 1, f"factorial: guarded value is not a one-argument function: {inner}")
+        v = inner[2][0]
+        lo_ = [int_const(c[3]) for c in cs if c[0] == "cmp" and c[1] == "ge" and c[2] == v]
+        hi_ = [int_const(c[3]) for c in cs if c[0] == "cmp" and c[1] == "le" and c[2] == v]
+        need(len(cs) == 2 and len(lo_) == 1 and len(hi_) == 1 and None not in lo_ + hi_,
+             f"factorial: guard is not (v >= lo) & (v <= hi) on the argument of FACTORIAL: {wo[0]}")
+        guard, t = f"(Some (({lo_[0]})%Z, ({hi_[0]})%Z))", inner
     need(t[0] == "anon" and len(t[2]) == 1, f"factorial: not a one-argument function: {t}")
     a = t[2][0]
     ty = "TyOther"
@@ -514,6 +571,7 @@ def generate(repo: str):
         need(is_param(a, "col"), "factorial: argument is not col")
         ty = "TyBigint"
     fact("fact", "fact_cfg", f"mkFact {'true' if t[1] == 'FACTORIAL' else 'false'} {ty}", ["factorial", "factorial_ensure_int"])
+    fact("fact_guard", "option (Z * Z)", guard, ["factorial_ensure_int"], "CASE WHEN lo <= v AND v <= hi THEN FACTORIAL(v) END")
 
     # ---- rint -------------------------------------------------------------------------------------------------
     t = I.function("rint")
@@ -544,11 +602,22 @@ def generate(repo: str):
     fact("dow", "Z", f"({shift})", ["dayofweek"])
 
     # ---- overlay ----------------------------------------------------------------------------------------------
+    glue = []
+
     def overlay(present):
         t = I.function("overlay", present=present)
-        need(t[0] == "exp" and t[1] == "Concat" and t[2]["expressions"][0] == "list" and len(t[2]["expressions"][1]) == 3,
-             f"overlay: not a 3-part Concat: {t}")
-        a, b, c = t[2]["expressions"][1]
+        if t[0] == "exp" and t[1] == "DPipe":
+            # (a || b) || c
+            inner = t[2].get("this")
+            need(inner and inner[0] == "exp" and inner[1] == "DPipe" and set(t[2]) == {"this", "expression"} and set(inner[2]) == {"this", "expression"},
+                 f"overlay: not (a || b) || c: {t}")
+            a, b, c = inner[2]["this"], inner[2]["expression"], t[2]["expression"]
+            glue.append("GluePipes")
+        else:
+            need(t[0] == "exp" and t[1] == "Concat" and t[2]["expressions"][0] == "list" and len(t[2]["expressions"][1]) == 3,
+                 f"overlay: neither a 3-part Concat nor (a || b) || c: {t}")
+            a, b, c = t[2]["expressions"][1]
+            glue.append("GlueConcat")
         for part in (a, c):
             need(part[0] == "call" and part[1] == "substring" and len(part[2]) == 3 and is_param(part[2][0], "src"),
                  f"overlay: part is not substring(src, .., ..): {part}")
@@ -571,6 +640,8 @@ def generate(repo: str):
          f"substring is not Column.substr(pos, len): {s}")
     fact("overlay", "overlay_cfg", f"mkOverlay ({fs}) {aff3(fl, 'pos', 'len')} {aff3(ss, 'pos', 'len')} {'true' if order_ok else 'false'}",
          ["overlay", "overlay_from_substr", "substring"], "CONCAT(SUBSTRING(src, s1, len1), replace, SUBSTRING(src, s2, LENGTH(src)))")
+    need(len(set(glue)) == 1, "overlay: the two call forms are glued differently")
+    fact("overlay_glue", "glue", glue[0], ["overlay_from_substr"], "how the three parts are joined: CONCAT(..) skips NULL parts on DuckDB, || does not")
 
     # ---- arrays_overlap ---------------------------------------------------------------------------------------
     t = I.function("arrays_overlap")
@@ -586,11 +657,19 @@ def generate(repo: str):
 
     # ---- array_union ------------------------------------------------------------------------------------------
     t = I.function("array_union")
+    uguard = False
+    wo = when_only(t)
+    if wo:
+        cs = conj(wo[0])
+        need(len(cs) == 2 and all(c[0] == "notnull" for c in cs) and {strip(c[1]) for c in cs} == {("param", "col1"), ("param", "col2")},
+             f"array_union: guard is not col1 IS NOT NULL AND col2 IS NOT NULL: {wo[0]}")
+        uguard, t = True, wo[1]
     outer = t[0] == "anon" and t[1] == "LIST_DISTINCT" and len(t[2]) == 1
     inner = outer and t[2][0][0] == "anon" and t[2][0][1] in ("LIST_CONCAT", "ARRAY_CONCAT", "LIST_CAT", "ARRAY_CAT")
     both = inner and len(t[2][0][2]) == 2 and {strip(x) for x in t[2][0][2]} == {("param", "col1"), ("param", "col2")}
     fact("union", "union_cfg", f"mkUnion {'true' if outer else 'false'} {'true' if inner else 'false'} {'true' if both else 'false'}",
          ["array_union", "array_union_using_list_concat"])
+    fact("union_guard", "bool", "true" if uguard else "false", ["array_union_using_list_concat"])
 
     # ---- array_remove -----------------------------------------------------------------------------------------
     t = I.function("array_remove")
@@ -719,9 +798,93 @@ def generate(repo: str):
         need(u[0] == "exp" and u[1] == "UnixSeconds" and is_param(u[2]["this"], "col"), "unix_seconds is not UnixSeconds(col)")
         fact("unix_millis", "millis_cfg", f"(MillisFromSeconds ({k}))", ["unix_millis", "unix_millis_multiply_epoch", "unix_seconds"])
 
+    # ---- array_append ------------------------------------------------------------------------------------------
+    t = I.function("array_append")
+    aguard = False
+    wo = when_only(t)
+    if wo:
+        need(wo[0][0] == "notnull" and is_param(wo[0][1], "col"), f"array_append: guard is not col IS NOT NULL: {wo[0]}")
+        aguard, t = True, wo[1]
+    need(t[0] == "anon" and t[1] == "LIST_APPEND" and len(t[2]) == 2 and is_param(t[2][0], "col") and is_param(t[2][1], "value"),
+         f"array_append: not LIST_APPEND(col, value): {t}")
+    fact("append_guard", "bool", "true" if aguard else "false", ["array_append", "array_append_list_append"])
+
+    # ---- left / right -------------------------------------------------------------------------------------------
+    for f, cls in (("left", "Left"), ("right", "Right")):
+        t = I.function(f)
+        need(t[0] == "exp" and t[1] == cls and is_param(t[2]["this"], "str") and set(t[2]) == {"this", "expression"}, f"{f}: not {cls}(str, len): {t}")
+        e = t[2]["expression"]
+        floor = "None"
+        if e[0] == "exp" and e[1] == "Greatest":
+            ex = e[2].get("expressions")
+            need(is_param(e[2]["this"], "len") and ex and ex[0] == "list" and len(ex[1]) == 1 and int_const(ex[1][0]) is not None,
+                 f"{f}: length is not GREATEST(len, k): {e}")
+            floor = f"(Some ({int_const(ex[1][0])}))"
+        else:
+            need(is_param(e, "len"), f"{f}: length is neither len nor GREATEST(len, k): {e}")
+        fact(f + "_floor", "option Z", floor, [f])
+
+    # ---- substr -------------------------------------------------------------------------------------------------
+    t = I.function("substr", present={"len": True})
+    need(t[0] == "exp" and t[1] == "Substring" and is_param(t[2]["this"], "str") and is_param(t[2].get("length"), "len")
+         and set(t[2]) == {"this", "start", "length"}, f"substr: not Substring(str, start, len): {t}")
+    st_ = t[2]["start"]
+    remap = "None"
+    wo = when_otherwise(st_)
+    if wo:
+        c, a, b = wo
+        need(c[0] == "cmp" and c[1] == "eq" and is_param(c[2], "pos") and int_const(c[3]) is not None and int_const(a) is not None
+             and is_param(b, "pos"), f"substr: start is not when(pos == k0, k1).otherwise(pos): {st_}")
+        remap = f"(Some (({int_const(c[3])})%Z, ({int_const(a)})%Z))"
+    else:
+        need(is_param(st_, "pos"), f"substr: start is neither pos nor a re-mapping of pos: {st_}")
+    fact("substr_remap", "option (Z * Z)", remap, ["substr"], "CASE WHEN pos = k0 THEN k1 ELSE pos END")
+
+    # ---- concat ---------------------------------------------------------------------------------------------------
+    st = I.duck_statements("concat")
+    src = [ast.unparse(x) for x in st]
+    if len(st) == 1 and src[0] == "return Column.invoke_expression_over_column(None, expression.Concat, expressions=cols)":
+        cglue = "GlueConcat"
+    else:
+        need(len(st) == 3 and src[0] == "result = Column.ensure_col(cols[0]).column_expression" and isinstance(st[1], ast.For)
+             and ast.unparse(st[1].target) == "other" and ast.unparse(st[1].iter) == "cols[1:]" and len(st[1].body) == 1 and not st[1].orelse
+             and ast.unparse(st[1].body[0]) == "result = expression.DPipe(this=result, expression=Column.ensure_col(other).column_expression)"
+             and src[2] == "return Column(result)", "concat: DuckDB path is neither Concat(cols) nor a left fold of || over cols: " + " ; ".join(src)[:300])
+        cglue = "GluePipes"
+    fact("concat_glue", "glue", cglue, ["concat"])
+
+    # ---- trunc / date_trunc unit spellings --------------------------------------------------------------------------
+    table = {}
+    for n in I.fn_tree.body:
+        if isinstance(n, ast.Assign) and len(n.targets) == 1 and isinstance(n.targets[0], ast.Name) and n.targets[0].id == "_TRUNC_UNIT_SPELLINGS":
+            need(isinstance(n.value, ast.Dict) and all(isinstance(k, ast.Constant) and isinstance(v, ast.Constant) and isinstance(k.value, str)
+                                                      and isinstance(v.value, str) for k, v in zip(n.value.keys, n.value.values)),
+                 "_TRUNC_UNIT_SPELLINGS is not a literal str -> str dict")
+            table = {k.value: v.value for k, v in zip(n.value.keys, n.value.values)}
+    used = []
+    for f, cls in (("date_trunc", "TimestampTrunc"), ("trunc", "DateTrunc")):
+        d = I.FN[f]
+        I.used[f] = ("functions.py", py2v.src_hash(d, I.fn_src))
+        units = [k.value for c in ast.walk(d) if isinstance(c, ast.Call) for k in c.keywords if k.arg == "unit"]
+        need(len(units) == 1, f"{f}: unit= not found once")
+        u = ast.unparse(units[0])
+        if u == "lit(format)":
+            used.append(False)
+        else:
+            need(u == "lit(_TRUNC_UNIT_SPELLINGS.get(format.lower(), format))", f"{f}: unit is neither lit(format) nor the spelling lookup: {u}")
+            used.append(True)
+        need(f"expression.{cls}" in ast.unparse(d), f"{f}: does not build {cls}")
+    need(len(set(used)) == 1, "trunc and date_trunc treat the unit differently")
+    pairs = sorted(table.items()) if used[0] else []
+    for k, v in pairs:
+        need(k == k.lower() and k.isascii() and v.isascii() and k.isalnum() and v.isalnum(), "unit spelling table entry is not a plain lower-case word")
+    fact("trunc_units", "list (string * string)", "[" + "; ".join(f'("{k}", "{v}")' for k, v in pairs) + "]%string", ["trunc", "date_trunc"],
+         "Spark spelling -> spelling passed to the engine (lower-cased lookup, identity when absent)")
+
     L.append("Definition c17_facts : facts := mkFacts c17_slice c17_element_at c17_try_element_at c17_getitem "
              "c17_array_min_idx c17_array_max_idx c17_pos c17_fact c17_rint c17_dow c17_overlay c17_overlap c17_union "
-             "c17_remove c17_nanvl c17_seq_default c17_date_add c17_date_sub c17_lev c17_unix_millis.")
+             "c17_remove c17_nanvl c17_seq_default c17_date_add c17_date_sub c17_lev c17_unix_millis "
+             "c17_slice_rebase c17_fact_guard c17_union_guard c17_overlay_glue c17_concat_glue c17_append_guard c17_left_floor c17_right_floor c17_substr_remap.")
     return "\n".join(L) + "\n", facts
 
 
